@@ -14,6 +14,14 @@ func FloatValueApprox(fraction, margin float64) Value {
 			return false, false
 		}
 		fx, fy := x.Float(), y.Float()
+		if fx == fy {
+			// equal values are always approximately equal, this includes equal infinities whose difference is NaN
+			return true, true
+		}
+		if math.IsNaN(fx) || math.IsNaN(fy) {
+			// like proto.Equal, NaN is only equal to NaN
+			return math.IsNaN(fx) && math.IsNaN(fy), true
+		}
 		relMarg := fraction * math.Min(math.Abs(fx), math.Abs(fy))
 		return math.Abs(fx-fy) <= math.Max(margin, relMarg), true
 	}
